@@ -14,3 +14,4 @@ pub mod icc;
 pub mod models;
 pub mod modular;
 pub mod src;
+pub mod vardct;
